@@ -1348,7 +1348,7 @@ class Connection(object):
         log.debug("Received options response on new connection (%s) from %s",
                   id(self), self.endpoint)
         supported_cql_versions = options_response.cql_versions
-        remote_supported_compressions = options_response.options['COMPRESSION']
+        remote_supported_compressions = options_response.options.get('COMPRESSION', [])
         self._product_type = options_response.options.get('PRODUCT_TYPE', [None])[0]
 
         if self.cql_version:
